@@ -50,6 +50,8 @@ type WorkerOut struct {
 	Runs       int            `json:"runs"`
 	Nontrivial int            `json:"nontrivial"`
 	Sigs       []uint64       `json:"sigs"`
+	SigW       []int          `json:"sig_w"` // per signature: distinct cases inside that run (1, or the number of faults fired by an enumerating scenario)
+	Evals      int            `json:"evals"` // executions (>= runs when a run enumerates faults internally)
 	Steps      int64          `json:"steps"`
 	SimNs      int64          `json:"sim_ns"`
 	Faults     map[string]int `json:"faults"`
@@ -150,7 +152,7 @@ func TestWorker(t *testing.T) {
 }
 
 func search(t *testing.T, def *Def, job *Job, out *WorkerOut) {
-	sigs := map[uint64]struct{}{}
+	sigs := map[uint64]int{}
 	deadline := time.Now().Add(time.Duration(job.WallS * float64(time.Second)))
 	maxFail := job.MaxFail
 	if maxFail == 0 {
@@ -180,9 +182,14 @@ func search(t *testing.T, def *Def, job *Job, out *WorkerOut) {
 		for _, v := range res.Faults {
 			nfault += v
 		}
+		out.Evals += 1 + res.States["exec"]
 		if res.Preemptions > 0 || nfault > 0 {
 			out.Nontrivial++
-			sigs[res.SchedSig^res.LogHash] = struct{}{}
+			wgt := 1
+			if res.States["exec"] > 0 {
+				wgt = nfault
+			}
+			sigs[res.SchedSig^res.LogHash] = wgt
 		}
 		if keep && (res.Preemptions > 0 || i == job.Start) {
 			tr := res.Trace
@@ -198,8 +205,9 @@ func search(t *testing.T, def *Def, job *Job, out *WorkerOut) {
 		}
 		leaked += len(res.Alive)
 	}
-	for s := range sigs {
+	for s, wgt := range sigs {
 		out.Sigs = append(out.Sigs, s)
+		out.SigW = append(out.SigW, wgt)
 	}
 	out.Complete = true
 }
